@@ -6,7 +6,7 @@ defect13 (minor, value typing): values whose Python type is not the type of the 
  * in_(item.count, range(2)): a container that is not a list/tuple/set is bound as ONE parameter ->
    sqlalchemy ProgrammingError at evaluate() instead of an EQLTranslationError at translation.
 
-Run:  cd /tmp/hunt2/C07 && PYTHONPATH=/tmp/hunt2/C07/src:/tmp/hunt2/C07 /venv/bin/python HUNT/defect13.py
+Run:  cd /tmp/hunt2/C07 && PYTHONPATH=/repo/src:/tmp/hunt2/C07 /venv/bin/python HUNT/defect13.py
 Exits non-zero when the translated statement and the in-memory evaluation disagree (the defect is present).
 """
 import importlib, os, sys, tempfile, warnings
